@@ -57,6 +57,11 @@ func runOne(t *testing.T, prop, tier string, seed uint64, ch *Choice, params map
 				msg := fmt.Sprint(r)
 				if strings.Contains(msg, "deadlock") {
 					rc.Stats.Inc("bubble_leftover_goroutines", 1)
+					if os.Getenv("VERIF_DEBUG_LEFTOVER") != "" {
+						buf := make([]byte, 1<<20)
+						buf = buf[:runtime.Stack(buf, true)]
+						fmt.Fprintf(os.Stderr, "LEFTOVER after seed %d:\n%s\n", seed, buf)
+					}
 					return
 				}
 				panic(r)
